@@ -69,6 +69,13 @@ def coq_makefile():
         run(['coq_makefile', '-f', '_CoqProject', '-o', 'Makefile'], cwd=COQ)
 
 
+def gen_tables():
+    """Regenerate coq/gen/*.v from /repo's current sources (fails loudly on unknown syntax)."""
+    r = run([sys.executable, os.path.join(ROOT, 'tools', 'gen_tables.py')], timeout=120)
+    new = os.path.join(COQ, 'gen', 'Kinds.v')
+    return r.returncode == 0, r.stdout
+
+
 def build_coq(prop_file):
     """(Re)compile the development up to Props/<prop>.vo; always recompile the Props file itself so
     that its Print Assumptions output is produced by this run."""
@@ -246,6 +253,9 @@ def main():
         if not ok:
             print(msg)
             broken.append('harness-build: the harness no longer compiles against /repo: ' + msg[-300:])
+        okg, gmsg = gen_tables()
+        if not okg:
+            broken.append('table translator failed on /repo sources: ' + gmsg[-300:])
         okc, make_out = build_coq(P['coq'])
         aud = audit_coq(P['coq'], make_out) if okc else {'theorems': [], 'closed': 0, 'axioms': [], 'problems': []}
         if not okc:
@@ -284,12 +294,18 @@ def main():
     # oracle failures: concrete inputs on which the implementation violates the property
     for res in fam_results:
         for f in res['ORACLE']:
+            # a family may serve several properties; its oracle messages name the property they decide
+            m = re.match(r'FAIL (C\d+)', f[2] if len(f) > 2 else '')
+            if m and m.group(1) != pid:
+                continue
             violations.append(({'property': pid, 'kind': 'property-oracle', 'family': res['family'], 'case': f[0],
                                 'input': f[1] if len(f) > 1 else '', 'what': f[2] if len(f) > 2 else '',
                                 'reproduce': res['cmds'][0]}, ''))
         seen_keys = {}
         for f in res['KNOWN']:
             key = f[1]
+            if re.match(r'C\d+\.', key) and key.split('.')[0] != pid:
+                continue
             if key in known and known[key].get('status', 'open') == 'open':
                 seen_keys.setdefault(key, f)
             else:
@@ -310,7 +326,10 @@ def main():
                 res = run_family(fam, 'thorough', seed + 1)
             except Exception as e:  # noqa
                 continue
-            for f in res['ORACLE'][:3]:
+            for f in res['ORACLE'][:50]:
+                m = re.match(r'FAIL (C\d+)', f[2] if len(f) > 2 else '')
+                if m and m.group(1) != pid:
+                    continue
                 violations.append(({'property': pid, 'kind': 'property-oracle (found by search after break)',
                                     'family': fam['name'], 'case': f[0], 'input': f[1] if len(f) > 1 else '',
                                     'what': f[2] if len(f) > 2 else '', 'broken': broken[:5]}, ''))
